@@ -355,6 +355,8 @@ class Interp:
             return (n > 0) if isinstance(n, int) else (n > 0)
         if isinstance(v, (Obj, ClassRef, FuncRef, ExtClass, ExtFunc, BoundMethod)):
             return True
+        if isinstance(v, SymColl) and v.nonempty is not None:
+            return v.nonempty
         raise EngineLimit(f"truthiness of {v!r}")
 
     def branch_on(self, v):
